@@ -78,17 +78,31 @@ func init() {
 	// C33: expiry
 	register("C33", func(c *Ctx) error {
 		return runSysProfile(c, func(i int) *profile {
-			return &profile{name: "expiry", wBegin: 5, wModify: 18, wGet: 8, wIter: 6, wCommit: 9, wDiscard: 1, wFlush: 8, wCompact: 9, wL0L0: 1,
+			p := &profile{name: "expiry", wBegin: 5, wModify: 18, wGet: 8, wIter: 6, wCommit: 9, wDiscard: 1, wFlush: 8, wCompact: 9, wL0L0: 1,
 				nOps: 60 + c.Rng.Intn(60), keys: keySetA[:3+c.Rng.Intn(4)], allVersions: true, reverse: true, expiry: true,
 				nkeeps: []int{1, 2}, detect: false, bigValues: i%2 == 0}
+			if i%3 == 1 {
+				// expired newest versions compacted inside level 0 while older live versions sit
+				// in deeper levels (the compaction overlaps lower levels: the expired entry must
+				// be kept as a marker)
+				p.wFlush, p.wL0L0, p.wCompact, p.wModify, p.wCommit, p.wGet = 20, 8, 2, 20, 12, 10
+			}
+			return p
 		})
 	})
 	// C36: managed mode, caller-chosen timestamps
 	register("C36", func(c *Ctx) error {
 		return runSysProfile(c, func(i int) *profile {
-			return &profile{name: "managed", managed: true, monotone: true, wBegin: 6, wModify: 14, wGet: 10, wIter: 5, wCommit: 8, wDiscard: 1, wFlush: 4, wCompact: 5, wSetDiscard: 3, wBatch: 3,
+			p := &profile{name: "managed", managed: true, monotone: true, wBegin: 6, wModify: 14, wGet: 10, wIter: 5, wCommit: 8, wDiscard: 1, wFlush: 4, wCompact: 5, wSetDiscard: 3, wBatch: 3,
 				nOps: 50 + c.Rng.Intn(50), keys: keySetA[:3+c.Rng.Intn(6)], allVersions: true, reverse: true, discardBit: true,
 				nkeeps: []int{1, 2, 100}, detect: i%2 == 0}
+			if i%3 == 2 {
+				// caller-chosen timestamps in any order (no discard timestamp, so nothing is ever
+				// dropped and finding F10 cannot interfere): newer versions below older ones
+				p.monotone, p.wSetDiscard, p.detect = false, 0, false
+				p.wFlush, p.wCompact, p.wGet = 8, 8, 14
+			}
+			return p
 		})
 	})
 }
